@@ -35,6 +35,10 @@ LAYOUTS = {
     'three-bindings@mdq-strict': [(UX['P'], POST, 0), (UX['R'], REDIR, 1), (UX['A'], ART, 2)],
     # endpoints for the reverse-SOAP binding and for a binding unknown to the library next to a POST one
     'post+simplesign+paos': [(UX['P'], POST, 0), ('https://spx.example/acs/simplesign', SIMPLESIGN, 1), ('https://spx.example/acs/paos', PAOS, 2)],
+    # isDefault on an endpoint of one binding while endpoints of other usable bindings exist
+    'default-on-post+artifact': [(UX['A'], ART, 0), (UX['P'], POST, 1, 'true'), (UX['R'], REDIR, 2)],
+    'default-on-artifact+post': [(UX['P'], POST, 0), (UX['A'], ART, 1, 'true')],
+    'default-on-redirect+post': [(UX['P'], POST, 0, 'false'), (UX['R'], REDIR, 1, 'true')],
     'simplesign+artifact': [('https://spx.example/acs/simplesign', SIMPLESIGN, 0), (UX['A'], ART, 1)],
 }
 Y_ACS = [(UY['P'], POST, 0), (UY['R'], REDIR, 1)]
